@@ -17,7 +17,7 @@ func init() {
 
 func runC07s(rc *RunCtx) {
 	G := rc.G
-	shared := genKeys(G, 1+G.Draw(2), "shared-")
+	shared := uniqueCrypto(genKeys(G, 1+G.Draw(2), "shared-"))
 	other := genKeys(G, 1+G.Draw(2), "other-")
 	mk := func(v int) *mCfg {
 		c := &mCfg{}
@@ -155,7 +155,7 @@ func init() {
 func runC07r(rc *RunCtx) {
 	G := rc.G
 	w := simnet.NewWorld()
-	keys := genKeys(G, 1+G.Draw(3), "")
+	keys := uniqueCrypto(genKeys(G, 1+G.Draw(3), ""))
 	sizes := []int{0, 1, 2, 5, 50}
 	cur := sizes[G.Draw(len(sizes))]
 	if G.Draw(3) == 0 {
